@@ -162,20 +162,33 @@ fn check_mut_slice<B: BufMutSlice<N>, const N: usize>(
         }
     }
     let Some(after) = after else { return };
-    // Kernel-style fill of the first n bytes.
+    let n_raw = n;
     let n = n.min(allowed);
-    let mut k = 0;
-    for (p, l) in parts.iter() {
-        for j in 0..*l {
-            if k == n {
-                break;
-            }
-            unsafe { p.add(j).write(pat(k)) };
-            k += 1;
+    if n_raw % 3 == 1 {
+        // The provided helper: copies as much as fits, in order across the buffers, and marks it initialised.
+        drop(iov);
+        let bytes: Vec<u8> = (0..n_raw).map(pat).collect();
+        let wrote = bufs.extend_from_slice(&bytes);
+        if wrote != n {
+            c.fail(&format!("bufmutslice-extend-from-slice:{name}"), format!("{name}: extend_from_slice of {n_raw} bytes with {allowed} bytes of room returned {wrote}"));
+            return;
         }
+        c.rep.cell("BufMutSlice:extend_from_slice");
+    } else {
+        // Kernel-style fill of the first n bytes.
+        let mut k = 0;
+        for (p, l) in parts.iter() {
+            for j in 0..*l {
+                if k == n {
+                    break;
+                }
+                unsafe { p.add(j).write(pat(k)) };
+                k += 1;
+            }
+        }
+        drop(iov);
+        unsafe { bufs.set_init(n) };
     }
-    drop(iov);
-    unsafe { bufs.set_init(n) };
     let after = after(bufs);
     let mut k = 0;
     let mut left = n;
